@@ -170,7 +170,7 @@ claim("C18", "DESIGN.md 5/C18", "Lean theorems on the command logic over an assu
       "Whole NetCDF command files (read, one or two data commands, write; any file order) are loaded with Program.from_source, run, and the written dataset compared with the computed results.",
       TB)
 claim("C19", "DESIGN.md 5/C19", "Lean theorems on the registry model + tables regenerated from the source (decide) + fresh-interpreter history correspondence + fresh-process twins",
-      "Theorems in MPilot.C19: lookup_congr (the lookup is a function of the registered entries under the requested libraries), register_outside_irrelevant / history_outside_irrelevant "
+      "MPilot.C19 (Props/C19Hist.lean): construction_determined - two process states (registries) that agree on the entries under the requested libraries give the same outcome for that request, the loading of those libraries by Program.__init__ included (filter_register: selecting commutes with registering; filter_foldl_register), whatever else differs - other programs built earlier, other libraries imported, classes in look-alike modules; runHistory_construct_determined, other_program_irrelevant. Theorems in MPilot.C19: lookup_congr (the lookup is a function of the registered entries under the requested libraries), register_outside_irrelevant / history_outside_irrelevant "
       "(no history of definitions elsewhere changes it), no_prefix_capture (every offered command's module is a requested library or beneath one), lookup_perm (order of libraries), "
       "duplicates_rejected. builtin_libraries_duplicate_free / readers_resolve_to_own_library / builtin_modules_under_libraries are re-proved by kernel evaluation against declarations "
       "regenerated from the source on every run. Every history runs in a fresh interpreter and each final request is replayed first-thing in another fresh one. Libraries that exist only as files "
